@@ -45,6 +45,8 @@ m = {
     "engines": [
         {"name": "verif-harness", "path": "/verif/harness", "serves_properties": [c["property_id"] for c in out_checks if c["engine"] == "verif-harness"],
          "kind_free_text": "Rust crate: one binary per property on a shared core (proptest value trees with shrinking driven by a seeded runner, exhaustive enumerators, reference models/oracles, evidence + replay writer)"},
+        {"name": "cargo-fuzz", "path": "/verif/harness/fuzz", "serves_properties": [c["property_id"] for c in out_checks if c["engine"] == "cargo-fuzz"],
+         "kind_free_text": "cargo-fuzz 0.13 / libFuzzer project (nightly, AddressSanitizer + a plain optimised build) with nine in-process targets, driven by /verif/checks/c10.sh + c10_run.py (replay tier, seed-pinned campaigns, crash classification against known findings, evidence writer)"},
     ],
     "checks": out_checks,
     "not_applicable": na,
